@@ -44,3 +44,23 @@ PROPS = {
         "assumptions": COMMON_ASSUME,
     },
 }
+
+PROPS["C16"] = {
+    "channels": [{"cmd": "run-c16"}],
+    "cone": r"^MISMATCH (json|json-fuel|harness|driver)",
+    "rule": "documents nested exactly at, one and two levels past the recursion cap (closed, examined whole; open, truncated mode), verdict compared with the model; bombs of 10^4..10^6 (thorough: 10^7) levels in four shapes ('[', '{\"k\":', mixed, padded), open and closed, at limits 0 and 2^32-1, run in a process whose maximum stack is 16 MB: must return, must not be reported as JSON; a fatal stack overflow kills the shard (no DONE line) and is reported",
+    "proved": "",
+    "assumptions": COMMON_ASSUME + ["Go recursion depth equals the model's lvl structure (two frames per level)"],
+}
+
+JSON_ASSUME = COMMON_ASSUME + ["fuel 2*len+2 suffices (model flag oof never raised in any run; proved separately where stated)"]
+
+PROPS["C09"] = {
+    "channels": [{"cmd": "run-json-exh"}, {"cmd": "run-json"}],
+    "cone": r"^MISMATCH (json|json-fuel|judge|ndjson|harness|driver)",
+    "exhaustive": True,
+    "rule": "jexh: every string over the 18-symbol alphabet `[]{},:\"\\a1-.e tu0n` up to length 5 (quick) / 6 (thorough), in whole mode (limit 0) and truncated mode (limit = len): implementation verdict vs model vs the independent grammar judge; json: generated RFC 8259 documents x every cut x four queries with dirty recycled pool states, token mutations (delete/duplicate/swap/insert structural bytes), fixed tricky strings; non-trivial = accepted by some JSON-family detector",
+    "proved": "C09 in full on the model: accounting invariant, scanner soundness w.r.t. the relaxed grammar, partial soundness with explicit completions, json_sound_whole, json_sound_truncated for every query / token set / recursion cap",
+    "not_proved": "",
+    "assumptions": JSON_ASSUME,
+}
